@@ -54,6 +54,10 @@ fn mk() -> CircularBuffer<4, String> { CircularBuffer::from_iter([String::from("
 fn consume(_b: CircularBuffer<4, String>) {}
 fn is_send<X: Send>() {}
 fn is_sync<X: Sync>() {}
+/// Sync but not Send
+type Guard = std::sync::MutexGuard<'static, u32>;
+/// Send but not Sync
+type Shy = std::cell::Cell<u32>;
 '''
 
 
@@ -153,21 +157,24 @@ def static_witnesses():
                                           "fn w() -> usize { W_C.len() + W_S.len() }")
     acc['Iter/clone_without_T_clone'] = "struct NoClone;\nfn w<'a>(it: &Iter<'a, NoClone>) -> Iter<'a, NoClone> { it.clone() }"
     acc['CircularBuffer/send_iff_T_send'] = "fn w<T: Send>() { is_send::<CircularBuffer<4, T>>() }"
-    rejt['CircularBuffer/send_iff_T_send'] = "fn w() { is_send::<CircularBuffer<4, std::rc::Rc<u32>>>() }"
+    rejt['CircularBuffer/send_iff_T_send'] = "fn w() { is_send::<CircularBuffer<4, Guard>>() }"
     acc['CircularBuffer/sync_iff_T_sync'] = "fn w<T: Sync>() { is_sync::<CircularBuffer<4, T>>() }"
-    rejt['CircularBuffer/sync_iff_T_sync'] = "fn w() { is_sync::<CircularBuffer<4, std::cell::Cell<u32>>>() }"
+    rejt['CircularBuffer/sync_iff_T_sync'] = "fn w() { is_sync::<CircularBuffer<4, Shy>>() }"
     acc['Iter/send_iff_T_sync'] = "fn w<'a, T: Sync + 'a>() { is_send::<Iter<'a, T>>() }"
-    rejt['Iter/send_iff_T_sync'] = "fn w() { is_send::<Iter<'static, std::cell::Cell<u32>>>() }"
+    rejt['Iter/send_iff_T_sync'] = "fn w() { is_send::<Iter<'static, Shy>>() }"
     acc['Iter/sync_iff_T_sync'] = "fn w<'a, T: Sync + 'a>() { is_sync::<Iter<'a, T>>() }"
-    rejt['Iter/sync_iff_T_sync'] = "fn w() { is_sync::<Iter<'static, std::cell::Cell<u32>>>() }"
+    rejt['Iter/sync_iff_T_sync'] = "fn w() { is_sync::<Iter<'static, Shy>>() }"
     acc['IterMut/send_iff_T_send'] = "fn w<'a, T: Send + 'a>() { is_send::<IterMut<'a, T>>() }"
-    rejt['IterMut/send_iff_T_send'] = "fn w() { is_send::<IterMut<'static, std::rc::Rc<u32>>>() }"
+    rejt['IterMut/send_iff_T_send'] = "fn w() { is_send::<IterMut<'static, Guard>>() }"
     acc['IterMut/sync_iff_T_sync'] = "fn w<'a, T: Sync + 'a>() { is_sync::<IterMut<'a, T>>() }"
-    rejt['IterMut/sync_iff_T_sync'] = "fn w() { is_sync::<IterMut<'static, std::cell::Cell<u32>>>() }"
+    rejt['IterMut/sync_iff_T_sync'] = "fn w() { is_sync::<IterMut<'static, Shy>>() }"
     acc['IntoIter/send_iff_T_send'] = "fn w<T: Send>() { is_send::<IntoIter<4, T>>() }"
-    rejt['IntoIter/send_iff_T_send'] = "fn w() { is_send::<IntoIter<4, std::rc::Rc<u32>>>() }"
+    rejt['IntoIter/send_iff_T_send'] = "fn w() { is_send::<IntoIter<4, Guard>>() }"
     acc['IntoIter/sync_iff_T_sync'] = "fn w<T: Sync>() { is_sync::<IntoIter<4, T>>() }"
-    rejt['IntoIter/sync_iff_T_sync'] = "fn w() { is_sync::<IntoIter<4, std::cell::Cell<u32>>>() }"
+    rejt['IntoIter/sync_iff_T_sync'] = "fn w() { is_sync::<IntoIter<4, Shy>>() }"
+    rejt['Drain/send_without_T_send'] = "fn w() { is_send::<Drain<'static, 4, Guard>>() }"
+    rejt['Drain/sync_without_T_sync'] = "fn w() { is_sync::<Drain<'static, 4, Shy>>() }"
+    rejt['Drain/send_without_T_sync'] = "fn w() { is_send::<Drain<'static, 4, Shy>>() }"
     return acc, rejb, rejt
 
 
@@ -268,9 +275,12 @@ def run(tier):
             if key in st:
                 rejt.add_item('static ' + key + ' (converse must be rejected)', st[key])
         else:
-            if key not in sb:
+            if key in sb:
+                rej.add_item('static ' + key + ' (must not hold)', sb[key])
+            elif key in st:
+                rejt.add_item('static ' + key + ' (must not hold)', st[key])
+            else:
                 raise ToolError('no reject witness for static contract row ' + key)
-            rej.add_item('static ' + key + ' (must not hold)', sb[key])
     out = {'violations': [], 'tool_errors': [], 'programs': len(res['programs']), 'states': res['states'], 'transitions': res['transitions'],
            'accept_functions': len(acc.items), 'reject_functions': len(rej.items) + len(rejt.items), 'methods_covered': covered,
            'static_rows': len(rows), 'samples': []}
